@@ -337,12 +337,13 @@ AL_ADDR = fun("address_list_addr", S, I, S)
 def al_facts(s):
     """What the verified contract of parse_email_addresses says about AL_*(s) (assumed at call sites)."""
     k = z3.Int("k!al")
-    n = GA_N(s)
+    u = UNFOLD(s)            # the header value is unfolded before it is parsed into addresses
+    n = GA_N(u)
     return z3.And(
-        AL_N(s) == CNT_GA(s, n), AL_N(s) >= 0,
-        z3.ForAll([k], z3.Implies(z3.And(k >= 0, k < n, z3.Length(GA_ADDR(s, k)) > 0),
-                                  z3.And(AL_NAME(s, CNT_GA(s, k)) == dhv_term(z3.BoolVal(False), GA_NAME(s, k)),
-                                         AL_ADDR(s, CNT_GA(s, k)) == GA_ADDR(s, k))), patterns=[GA_ADDR(s, k)]))
+        AL_N(s) == CNT_GA(u, n), AL_N(s) >= 0,
+        z3.ForAll([k], z3.Implies(z3.And(k >= 0, k < n, z3.Length(GA_ADDR(u, k)) > 0),
+                                  z3.And(AL_NAME(s, CNT_GA(u, k)) == dhv_term(z3.BoolVal(False), GA_NAME(u, k)),
+                                         AL_ADDR(s, CNT_GA(u, k)) == GA_ADDR(u, k))), patterns=[GA_ADDR(u, k)]))
 
 
 # ---------------------------------------------------------------------- spec: mbox split --
@@ -1422,11 +1423,13 @@ def install(reg):
             raise Unsupported(f"{ex.loc(node)} getaddresses of other than a one-element list")
         n, s = opt_parts(items[0])
         st.assume(GA_N(s) >= 0)
+        st.ghost["addr_parse_arg"] = s          # what the code hands to the address parser (read by the contract clauses)
         return [(st, VSeq(GA_N(s), lambda k: VTuple([VStr(GA_NAME(s, k)), VStr(GA_ADDR(s, k))]), "tuple"))]
 
     def m_parseaddr(ex, st, args, kwargs, node):
         """email.utils.parseaddr(s): ASSUMED total; (realname, address), ('', '') when unparsable."""
         n, s = opt_parts(args[0])
+        st.ghost["addr_parse_arg"] = s
         return [(st, VTuple([VStr(PA_NAME(s)), VStr(PA_ADDR(s))]))]
 
     def m_parsedate(ex, st, args, kwargs, node):
